@@ -124,6 +124,64 @@ func facts(f *hc.Facts) {
 	f.Nat("doubleVectors", s.DoubleVectors, "fields decoded by the generator's double-vector loop")
 	f.Nat("vectorMakes", makes, "make( calls in DecodeBare bodies")
 	f.Nat("vectorMakesCapped", capped, "... of the form `if headerLen > 0 { x = make(T, 0, headerLen % bin.PreallocateLimit) }`")
+	// The MTProto (mt) and end-to-end (e2e) schemas as Lean data: they come first in the schema, refer
+	// only to themselves, and are small enough for `Schema.wf` to be checked by the kernel (`decide`).
+	nc, ni := 0, 0
+	for _, c := range s.Ctors {
+		if c.Pkg == "tg" {
+			break
+		}
+		nc++
+	}
+	for _, i := range s.Ifaces {
+		if i.Pkg == "tg" {
+			break
+		}
+		ni++
+	}
+	closed := true
+	var check func(t *Ty)
+	check = func(t *Ty) {
+		switch t.K {
+		case "iface":
+			closed = closed && t.Ref < ni
+		case "ctor", "bare":
+			closed = closed && t.Ref < nc
+		case "vec":
+			check(t.Elem)
+		}
+	}
+	var rows []string
+	for _, c := range s.Ctors[:nc] {
+		var fs []string
+		for _, fl := range c.Fields {
+			check(fl.Ty)
+			cond := "none"
+			if fl.Cond {
+				cond = fmt.Sprintf("some (%d, %d)", fl.FlagIdx, fl.Bit)
+			}
+			fs = append(fs, fmt.Sprintf("(%s, %s)", tyCodes(fl.Ty), cond))
+		}
+		id := "none"
+		if c.HasID {
+			id = fmt.Sprintf("some 0x%08x", c.ID)
+		}
+		rows = append(rows, fmt.Sprintf("  (%s, %v, [%s])", id, c.Bad != "", strings.Join(fs, ", ")))
+	}
+	var irows []string
+	for _, i := range s.Ifaces[:ni] {
+		for _, r := range i.Refs {
+			closed = closed && r < nc
+		}
+		irows = append(irows, strings.ReplaceAll(fmt.Sprint(i.Refs), " ", ", "))
+	}
+	if !closed {
+		f.Missing("coreCtors", "the mt/e2e schemas refer to tg types")
+	} else {
+		f.Raw("/-- mt and tg/e2e constructors (id, bad, fields as (type codes, condition)); see `TdModel.C21.tyOfCodes`. -/")
+		f.Raw("def coreCtors : List (Option Nat × Bool × List (List Nat × Option (Nat × Nat))) := [\n" + strings.Join(rows, ",\n") + "]")
+		f.Raw("def coreIfaces : List (List Nat) := [" + strings.Join(irows, ", ") + "]")
+	}
 	text := s.Text()
 	sum := sha256.Sum256([]byte(text))
 	f.Str("schemaSha256", hex.EncodeToString(sum[:]), "sha256 of Gen/C21.schema")
@@ -184,7 +242,7 @@ func run(c *hc.Ctx) error {
 		c.Differ("schema-vs-go-types", e, "", "the translated schema disagrees with the Go types")
 	}
 	var q []pending
-	q = append(q, pending{"wf", "Schema.wf on the regenerated schema", fmt.Sprintf("ok %d %d", len(s.Ctors), len(s.Ifaces))})
+	q = append(q, pending{"wf", "Schema.wf on the regenerated schema", fmt.Sprintf("ok %d %d core=%d/%d", len(s.Ctors), len(s.Ifaces), coreN(s, true), coreN(s, false))})
 	for _, ct := range s.Ctors {
 		if ct.Bad != "" {
 			c.Note("translator: %s.%s: %s", ct.Pkg, ct.GoName, ct.Bad)
@@ -395,4 +453,70 @@ func presetGeneric(ct *Ctor, obj, back bin.Object) {
 			}
 		}
 	}
+}
+
+// tyCodes is the numeric encoding of a type read by TdModel.C21.tyOfCodes.
+func tyCodes(t *Ty) string {
+	var out []string
+	for {
+		switch t.K {
+		case "int":
+			out = append(out, "0")
+		case "long":
+			out = append(out, "1")
+		case "double":
+			out = append(out, "2")
+		case "i128":
+			out = append(out, "3")
+		case "i256":
+			out = append(out, "4")
+		case "str", "bytes":
+			out = append(out, "5")
+		case "bool":
+			out = append(out, "6")
+		case "true":
+			out = append(out, "7")
+		case "flags":
+			out = append(out, "8")
+		case "generic":
+			out = append(out, "9")
+		case "iface":
+			out = append(out, "10", fmt.Sprint(t.Ref))
+		case "ctor":
+			out = append(out, "11", fmt.Sprint(t.Ref))
+		case "bare":
+			out = append(out, "12", fmt.Sprint(t.Ref))
+		case "vec":
+			if t.BareHdr {
+				out = append(out, "14")
+			} else {
+				out = append(out, "13")
+			}
+			t = t.Elem
+			continue
+		default:
+			out = append(out, "99")
+		}
+		return "[" + strings.Join(out, ", ") + "]"
+	}
+}
+
+func coreN(s *Schema, ctors bool) int {
+	n := 0
+	if ctors {
+		for _, c := range s.Ctors {
+			if c.Pkg == "tg" {
+				break
+			}
+			n++
+		}
+		return n
+	}
+	for _, i := range s.Ifaces {
+		if i.Pkg == "tg" {
+			break
+		}
+		n++
+	}
+	return n
 }
